@@ -295,50 +295,76 @@ structure Rewritten where
   ay : Rat
   deriving Repr
 
-/-- `k` is the command of this group (L for the later pairs of a moveto), `single` = `i == 0 && i+di >= n` -/
+/-- control point coincides with the start or the end point -/
+def onEnds (p a c : Pt) : Bool := c == p || c == a
+
+/-- new cursor position of a `k` group (`rx`,`ry` = current point for relative commands, else 0) -/
+def endPoint (x y rx ry : Rat) : Kind → List Coord → Pt
+  | .H, [a] => (a.v + rx, y)
+  | .V, [a] => (x, a.v + ry)
+  | .M, [a, b] => (a.v + rx, b.v + ry)
+  | .L, [a, b] => (a.v + rx, b.v + ry)
+  | .T, [a, b] => (a.v + rx, b.v + ry)
+  | .S, [_, _, a, b] => (a.v + rx, b.v + ry)
+  | .Q, [_, _, a, b] => (a.v + rx, b.v + ry)
+  | .C, [_, _, _, _, a, b] => (a.v + rx, b.v + ry)
+  | .A, [_, _, _, _, _, a, b] => (a.v + rx, b.v + ry)
+  | _, _ => (x, y)
+
+/-- the C/S block: C → S when the first control point is the reflected one; a curve whose control points
+    lie on the end points becomes a line (an S only if it is the single group of its instruction);
+    returns the new `p.cx,p.cy` -/
+def stageC (p a pc : Pt) (rx ry : Rat) (single : Bool) : Kind → List Coord → Option Pt × Kind × List Coord
+  | .C, [c1x, c1y, c2x, c2y, ex, ey] =>
+    let cp1 : Pt := (c1x.v + rx, c1y.v + ry)
+    let cp2 : Pt := (c2x.v + rx, c2y.v + ry)
+    if cp1 == pc then
+      if single && onEnds p a cp1 && onEnds p a cp2 then (none, .L, [ex, ey])
+      else (some cp2, .S, [c2x, c2y, ex, ey])
+    else
+      if onEnds p a cp1 && onEnds p a cp2 then (none, .L, [ex, ey])
+      else (some cp2, .C, [c1x, c1y, c2x, c2y, ex, ey])
+  | .S, [c2x, c2y, ex, ey] =>
+    let cp2 : Pt := (c2x.v + rx, c2y.v + ry)
+    if single && onEnds p a pc && onEnds p a cp2 then (none, .L, [ex, ey])
+    else (some cp2, .S, [c2x, c2y, ex, ey])
+  | k, cs => (none, k, cs)
+
+/-- the Q/T block -/
+def stageQ (p a pq : Pt) (rx ry : Rat) (single : Bool) : Kind → List Coord → Option Pt × Kind × List Coord
+  | .Q, [cx, cy, ex, ey] =>
+    let cp : Pt := (cx.v + rx, cy.v + ry)
+    if cp == pq then
+      if single && onEnds p a cp then (none, .L, [ex, ey])
+      else (some cp, .T, [ex, ey])
+    else
+      if onEnds p a cp then (none, .L, [ex, ey])
+      else (some cp, .Q, [cx, cy, ex, ey])
+  | .T, [ex, ey] =>
+    if single && onEnds p a pq then (none, .L, [ex, ey])
+    else (some pq, .T, [ex, ey])
+  | k, cs => (none, k, cs)
+
+/-- the L block: zero-length line → nothing, vertical → V, horizontal → H; returns (kind, coords, skip) -/
+def stageL (p a : Pt) : Kind → List Coord → Kind × List Coord × Bool
+  | .L, [ex, ey] =>
+    if a.1 == p.1 && a.2 == p.2 then (.L, [ex, ey], true)
+    else if a.1 == p.1 then (.V, [ey], false)
+    else if a.2 == p.2 then (.H, [ex], false)
+    else (.L, [ex, ey], false)
+  | k, cs => (k, cs, false)
+
+/-- `k` is the command of this group (L for the later pairs of a moveto), `single` = `i == 0 && i+di >= n`;
+    `cs` has exactly `k.arity` coordinates (guaranteed by `copyInstr`) -/
 def rewrite (st : MSt) (k : Kind) (rel : Bool) (single : Bool) (cs : List Coord) : Rewritten :=
-  let di := cs.length
-  let x := st.x; let y := st.y
-  let rx : Rat := if rel then x else 0
-  let ry : Rat := if rel then y else 0
-  let (ax, ay) : Rat × Rat :=
-    if k == .H then (getV cs (di - 1) + rx, y)
-    else if k == .V then (x, getV cs (di - 1) + ry)
-    else (getV cs (di - 2) + rx, getV cs (di - 1) + ry)
-  -- C / S
-  let (c1, k1, cs1) : Option Pt × Kind × List Coord :=
-    if k == .C || k == .S then
-      let pc := reflPt x y st.c
-      let cp2 : Pt := (getV cs (di - 4) + rx, getV cs (di - 3) + ry)
-      let (cp1, k', cs') : Pt × Kind × List Coord :=
-        if k == .C then
-          let cp1 : Pt := (getV cs 0 + rx, getV cs 1 + ry)
-          if cp1 == pc then (cp1, .S, cs.drop 2) else (cp1, .C, cs)
-        else (pc, k, cs)
-      if (k' == .C || single) && (cp1 == (x, y) || cp1 == (ax, ay)) && (cp2 == (x, y) || cp2 == (ax, ay)) then
-        (none, .L, cs'.drop (cs'.length - 2))
-      else (some cp2, k', cs')
-    else (none, k, cs)
-  -- Q / T
-  let (q1, k2, cs2) : Option Pt × Kind × List Coord :=
-    if k1 == .Q || k1 == .T then
-      let pq := reflPt x y st.q
-      let (cp, k', cs') : Pt × Kind × List Coord :=
-        if k1 == .Q then
-          let cp : Pt := (getV cs1 0 + rx, getV cs1 1 + ry)
-          if cp == pq then (cp, .T, cs1.drop 2) else (cp, .Q, cs1)
-        else (pq, k1, cs1)
-      if (k' == .Q || single) && (cp == (x, y) || cp == (ax, ay)) then
-        (none, .L, cs'.drop (cs'.length - 2))
-      else (some cp, k', cs')
-    else (none, k1, cs1)
-  -- L → H / V / nothing
-  if k2 == .L then
-    if ax == x && ay == y then { c := c1, q := q1, k := k2, cs := cs2, skip := true, ax := ax, ay := ay }
-    else if ax == x then { c := c1, q := q1, k := .V, cs := cs2.drop 1, skip := false, ax := ax, ay := ay }
-    else if ay == y then { c := c1, q := q1, k := .H, cs := cs2.take 1, skip := false, ax := ax, ay := ay }
-    else { c := c1, q := q1, k := k2, cs := cs2, skip := false, ax := ax, ay := ay }
-  else { c := c1, q := q1, k := k2, cs := cs2, skip := false, ax := ax, ay := ay }
+  let p : Pt := (st.x, st.y)
+  let rx : Rat := if rel then st.x else 0
+  let ry : Rat := if rel then st.y else 0
+  let a := endPoint st.x st.y rx ry k cs
+  let c := stageC p a (reflPt st.x st.y st.c) rx ry single k cs
+  let q := stageQ p a (reflPt st.x st.y st.q) rx ry single c.2.1 c.2.2
+  let l := stageL p a q.2.1 q.2.2
+  { c := c.1, q := q.1, k := l.1, cs := l.2.1, skip := l.2.2, ax := a.1, ay := a.2 }
 
 /-- current and alternative candidate of a rewritten group -/
 def candidates (P : NumPr) (st : MSt) (force : Bool) (rel : Bool) (r : Rewritten) : OutGroup × OutGroup :=
